@@ -204,7 +204,8 @@ func c16History(k *fw.K, B, D, O int) {
 		}
 		want, _ := ref.FC(x, curW, curB)
 		k.Count("forward_calls", 1)
-		if e := rt.Compare(ry, want, 1e-11*float64(D), 1e-11, nil, 0); e != nil {
+		// sum_d x[b][d] may cancel: the absolute tolerance is that of D products of the magnitudes involved
+		if e := rt.Compare(ry, want, 1e-11*float64(D)*(1+maxAbs(curW)*maxAbs(x)+maxAbs(curB)), 1e-11, nil, 0); e != nil {
 			k.Failf("%s: Forward differs from y[b][o] = W[o]*sum_d x[b][d] + B[o] with the current parameters W=%v B=%v: %v", tag, curW.Data, curB.Data, e)
 			return nil, nil, nil, false
 		}
